@@ -48,8 +48,8 @@ MIRROR_CGEM = ("bparser . skip_obj_header ( ) ; bparser . skip_fNBytes ( ) ; bpa
                "bparser . skip ( 4 ) ; bparser . skip ( 4 ) ; bparser . skip ( 1 ) ; auto fSize = bparser . read < uint32_t > ( ) ; "
                "bparser . skip ( 4 ) ; m_offsets -> push_back ( m_offsets -> back ( ) + fSize ) ; "
                "for ( uint32_t i = 0 ; i < fSize ; i ++ ) { bparser . skip_obj_header ( ) ; auto fNBytes = bparser . read_fNBytes ( ) ; "
-               "bparser . skip_fVersion ( ) ; if ( m_version == - 1 ) { switch ( fNBytes ) { case 96 : m_version = 0 ; break ; "
-               "case 88 : m_version = 1 ; break ; default : throw std :: runtime_error ( \"Unknown TCgemCluster version with fNBytes=\" + "
+               "bparser . skip_fVersion ( ) ; if ( m_version == - 1 ) { switch ( fNBytes ) { case 96 : case 98 : m_version = 0 ; break ; "
+               "case 88 : case 90 : m_version = 1 ; break ; default : throw std :: runtime_error ( \"Unknown TCgemCluster version with fNBytes=\" + "
                "std :: to_string ( fNBytes ) ) ; } } bparser . skip_TObject ( ) ; "
                "m_clusterid -> push_back ( bparser . read < int32_t > ( ) ) ; m_trkid -> push_back ( bparser . read < int32_t > ( ) ) ; "
                "m_layerid -> push_back ( bparser . read < int32_t > ( ) ) ; m_sheetid -> push_back ( bparser . read < int32_t > ( ) ) ; "
@@ -504,7 +504,7 @@ def gen_synthetic(ck, n_cases):
 
 def gen_cgem(ck, n_cases):
     """CGEM cluster streams from the Gallina encoder: both class versions, referenced bits, empty events; plus the
-    first-object-referenced stream of C01_cgem_first_referenced_refuted"""
+    streams whose FIRST object of the basket carries kIsReferenced (fNBytes 98 / 90; cf. C01_cgem_first_object_any_bits)"""
     rng = ck.rng
     coq, cases = [], []
 
@@ -523,7 +523,10 @@ def gen_cgem(ck, n_cases):
     g = Syn(rng)
     for k in range(n_cases):
         ver = k % 2
-        first_ref = (k == n_cases - 1)
+        # the first object of the basket is referenced in the last two cases (one per class version) and in half of the others
+        # ... and never in the first four (two per class version): those are the streams the prebuilt extension can decode, i.e. the
+        # ones that exercise the working tree's Python content assembly for BOTH layouts (with / without m_recPositionY)
+        first_ref = (k >= n_cases - 2) or (k >= 4 and rng.random() < 0.5)
         evs, first = [], True
         for _ in range(rng.choice([1, 2, 4, 9])):
             cnt = rng.choice([0, 0, 1, 2, 5])
@@ -533,8 +536,11 @@ def gen_cgem(ck, n_cases):
                 first = False
                 objs.append(cluster(ver, ref))
             evs.append(f"(HRef {rng.randrange(0, 9000)} {0x80000000 | rng.randrange(2, 900)}, {g.colhdr()}, [" + "; ".join(objs) + "])")
+        if not first_ref and first:     # no object at all so far: the stream would say nothing about the layout
+            evs.append(f"(HRef 1 2147483650, {g.colhdr()}, [{cluster(ver, False)}; {cluster(ver, True)}])"); first = False
         if first_ref and first:
-            evs.append(f"(HRef 1 2147483650, {g.colhdr()}, [{cluster(ver, True)}])")
+            evs.append(f"(HRef 1 2147483650, {g.colhdr()}, [{cluster(ver, True)}])"); first = False
+        first_ref = first_ref and not first
         coq.append(f"Definition cgevs{k} : list (objhdr * colhdr * list (objhdr * (Z * tobject * cgem))) := [\n  " + ";\n  ".join(evs) + "].")
         coq.append(f"Eval vm_compute in let stored := map cgem_event_enc cgevs{k} in\n"
                    f"  [concat stored; 0 :: prefix_sums 0 (map zlen stored); "
@@ -600,7 +606,9 @@ def run(ck: vlib.Check):
     ck.assumptions += [
         "the stored TObjArray's own header is the fixed 25-byte layout the reader skips (empty fName, TObject without kIsReferenced)",
         "total object count of a basket < 2^32 (uint32_t offsets); byte counts < 2^30 (kByteCountMask)",
-        "CGEM cluster baskets: the first object of a basket is not referenced (else the reader throws — known finding)",
+        "the Python route executes the PREBUILT besio_cpp.so (no pybind11 here): behaviour that depends on root_io.hh edits is decided on "
+        "the native route (working-tree header + stand-in); a pinned-.so disagreement is only excused for CGEM streams whose first object "
+        "is referenced, when it raises exactly 'Unknown TCgemCluster version' and the native build decodes the stream as the model does",
         "streams for which the element class has no streamer info in the file hold only empty collections (EmptyReader)",
     ]
     # ---- 1 regenerate the parts of the model that come from the tree
@@ -713,6 +721,8 @@ def run(ck: vlib.Check):
         r = {"branches": [], "mismatches": [], "tie": [], "selection": [], "samples": [], "hashes": [], "dumps": [], "objects": 0, "values": 0,
              "registered_in_tree": SPEC_BRANCHES, "synthetic": syn_res}
     dumps = []
+    pinned_raises = {}      # CGEM synthetic streams on which the Python route (pinned besio_cpp.so) raised
+    native_ok = {}          # synthetic stream name -> the natively built working-tree reader reproduced the model
     if r is not None:
         dumps = r.pop("dumps")
         ck.cov["python"] = {"branch_instances": len(r["branches"]), "objects": r["objects"], "values_compared": r["values"],
@@ -765,18 +775,9 @@ def run(ck: vlib.Check):
                 continue
             ck.case(["synthetic", c["name"], hashlib.sha1(c["data"].encode()).hexdigest()])
             model = c["model"]
-            if c["kind"] == "cgem" and c.get("first_referenced"):
-                if "raised" in g:
-                    ck.violation("C01:cgem-first-object-referenced",
-                                 f"well-formed CGEM cluster stream (class version {c['version']}) whose FIRST object carries kIsReferenced "
-                                 f"(pidf present, fNBytes {98 if c['version'] == 0 else 90}): reading raises `{g['raised'][:120]}` instead of returning the "
-                                 f"stored clusters; model (faithful mirror) also rejects: {model is None}",
-                                 {"data": c["data"], "offs": c["offs"], "path": c["path"]})
-                    if model is not None:
-                        ck.tie_broken("correspondence", f"{c['name']}", "implementation raises, model accepts")
-                elif model is None:
-                    ck.tie_broken("correspondence", f"{c['name']}", "model rejects, implementation accepts")
-                continue
+            if c["kind"] == "cgem" and "raised" in g:
+                # decided after the native route (the prebuilt extension cannot follow edits of root_io.hh)
+                pinned_raises[c["name"]] = (c, g["raised"]); continue
             if "raised" in g:
                 nbad += 1
                 if nbad <= 4:
@@ -842,6 +843,8 @@ def run(ck: vlib.Check):
             except Exception as e:
                 ck.tie_broken("correspondence", "rootdec (native route)", str(e)[:500]); models = []
             nbad = 0
+            cg_by_name = {c["name"]: c for c in all_syn if c["kind"] == "cgem"}
+            first_ref_reported = []
             for (label, op, hx, of, _), rec, mod in zip(jobs, recs, models):
                 ck.case(["native", label, hashlib.sha1(hx.encode()).hexdigest()])
                 if op == "T":
@@ -872,6 +875,18 @@ def run(ck: vlib.Check):
                             rows.append(row)
                         got = (offs, [rows[a:b] for a, b in zip(offs[:-1], offs[1:])])
                     want = None if mod is None else (mod[0], mod[1])
+                native_ok[label] = (got == want and want is not None)
+                cg = cg_by_name.get(label)
+                if got != want and cg is not None and cg.get("first_referenced") and got is None and want is not None:
+                    ck.tie_broken("correspondence", f"native G {label}", "working-tree Bes3CgemClusterColReader throws, model decodes")
+                    if not first_ref_reported:
+                        first_ref_reported.append(label)
+                        ck.violation("C01:cgem-first-object-referenced",
+                                     f"well-formed CGEM cluster stream (class version {cg['version']}) whose FIRST object of the basket carries "
+                                     f"kIsReferenced (2-byte pidf, fNBytes {98 if cg['version'] == 0 else 90}): the natively compiled working-tree "
+                                     f"Bes3CgemClusterColReader throws `{rec[6:].strip()[:100]}` instead of returning the stored clusters",
+                                     {"data": hx, "offs": of, "path": cg["path"], "version": cg["version"]})
+                    continue
                 if got != want:
                     nbad += 1
                     if nbad <= 4:
@@ -883,6 +898,26 @@ def run(ck: vlib.Check):
                                      f"on {label}: {'raises/aborts' if got is None else 'offsets/element ranges differ from the stored stream'}"
                                      f" ({d})", {"label": label, "data": hx[:20000], "offs": of})
             ck.cov["native"] = {"streams": len(jobs), "real_baskets": sum(1 for j in jobs if ":" in j[0]), "ubsan_reports": len(ub)}
+    # ---- CGEM streams on which the Python route raised: the property is decided on the WORKING TREE (native route)
+    n_stale = 0
+    for name, (c, raised) in pinned_raises.items():
+        if c.get("first_referenced") and "Unknown TCgemCluster version" in raised and native_ok.get(name):
+            n_stale += 1
+            if n_stale == 1:
+                ck.notes.append(f"prebuilt extension predates the source fix: the pinned besio_cpp.so raises `{raised[:90]}` on CGEM stream {name} "
+                                f"(first object of the basket referenced, fNBytes {98 if c['version'] == 0 else 90}); the working-tree root_io.hh, "
+                                "compiled natively, decodes the same bytes exactly as stored (compared with the model). Not a violation: the "
+                                "extension cannot be rebuilt in this sandbox (no pybind11).")
+            continue
+        if any(v["key"] == "C01:cgem-first-object-referenced" for v in ck.viol) and c.get("first_referenced") and "Unknown TCgemCluster version" in raised:
+            continue     # already reported on the native route with the stream attached
+        ck.violation(f"C01:synthetic:{name}:{hashlib.sha1(c['data'].encode()).hexdigest()[:10]}",
+                     f"well-formed synthetic CGEM stream (class version {c['version']}, first object referenced: {bool(c.get('first_referenced'))}) makes "
+                     f"the Python route raise {raised[:160]}" + ("" if name in native_ok else " (native route not available to decide on the working tree)"),
+                     {k: c[k] for k in ("name", "path", "cls", "digi", "streamer", "data", "offs")})
+    if pinned_raises or cg_cases:
+        ck.cov["cgem_first_referenced"] = {"streams": sum(1 for c in cg_cases if c.get("first_referenced")),
+                                          "pinned_so_raises": len(pinned_raises), "judged_on_native_route_ok": n_stale}
 
 
 def replay(path):
@@ -912,7 +947,25 @@ def replay(path):
         if not hits:
             print("no longer failing: the branch now agrees with the member-by-member decode of its bytes")
         return 1 if hits else 0
-    if key.startswith("C01:synthetic:") or key == "C01:cgem-first-object-referenced":
+    if key == "C01:cgem-first-object-referenced":
+        # decided on the working tree: root_io.hh compiled natively (the prebuilt extension cannot follow source edits)
+        exe, err = build_native(vlib.SRC)
+        if exe is None:
+            print(err); return 1
+        env = dict(os.environ); env["ASAN_OPTIONS"] = "detect_leaks=0:exitcode=86"
+        rc, so, se = vlib.sh([str(exe)], timeout=600, env=env, input=f"G {rp['data']} {len(rp['offs'])} " + " ".join(map(str, rp["offs"])) + "\n")
+        rec = [l for l in so.splitlines() if l[:2] == "G "]
+        mod = run_rootdec(rootdec, [(["cgem"], [], rp["data"], rp["offs"])], vlib.BUILD / "C01")[0]
+        print(f"native working-tree reader rc={rc}: {rec[0][:160] if rec else se[-300:]}")
+        print(f"model (mirror of the fixed reader) decodes {None if mod is None else sum(len(e) for e in mod[1])} cluster(s), offsets {None if mod is None else mod[0]}")
+        if rc != 0 or not rec or " EXC " in rec[0]:
+            print("still failing: the working-tree reader throws on a stream whose first object is referenced"); return 1
+        cols = dict(kv.split("=", 1) for kv in rec[0][5:].strip().strip(";").split(";"))
+        offs = [int(x) for x in cols["offsets"][cols["offsets"].index("[") + 1:-1].split(",") if x]
+        ok = mod is not None and offs == mod[0]
+        print("offsets agree with the stored stream" if ok else "offsets differ from the stored stream")
+        return 0 if ok else 1
+    if key.startswith("C01:synthetic:"):
         case = dict(rp)
         case.setdefault("name", "replay"); case.setdefault("cls", SPEC_BRANCHES.get(case.get("path"), "")); case.setdefault("digi", False)
         case.setdefault("streamer", {})
